@@ -13,7 +13,7 @@ import (
 func init() {
 	register(&propDef{
 		ID:          "C19",
-		Explanation: "Decides, for package cmd/templ/generatecmd/sse (every function, go/cfg + type information): R1 no send on a registry channel can follow its close — either the channel type stored in the client registry is never closed and every send on it is one arm of a select whose other arm receives a done signal, or send and close both hold the registry mutex in the same goroutine (a send inside a `go` closure does not hold the caller's lock); R2 while the broadcaster holds the registry mutex it performs no blocking channel operation itself; R3 registration stores under the mutex and removal is deferred, under the mutex; R4 the broadcast loop addresses every registered client (no break/continue/return filter); R2 also covers every other function that takes the registry mutex and deferred calls that run before a deferred Unlock (sync.WaitGroup.Wait, sync.Cond.Wait, time.Sleep, channel operations outside a select with default); R5 the key under which a client is registered comes from a never-repeating source (an atomic add of a positive constant on a field that nothing else writes, a field only ever incremented, or a freshly allocated pointer/channel) — a key computed from the registry's current size is reused after a disconnect and replaces a connected client's entry. NOT decided: delivery under all interleavings, liveness of slow readers.",
+		Explanation: "Decides, for package cmd/templ/generatecmd/sse (every function, go/cfg + type information): R1 no send on a registry channel can follow its close — either the channel type stored in the client registry is never closed and every send on it is one arm of a select whose other arm receives a done signal, or send and close both hold the registry mutex in the same goroutine (a send inside a `go` closure does not hold the caller's lock); R2 while the broadcaster holds the registry mutex it performs no blocking channel operation itself; R3 registration stores under the mutex and removal is deferred, under the mutex; R4 the broadcast loop addresses every registered client (no break/continue/return filter); R2 also covers every other function that takes the registry mutex and deferred calls that run before a deferred Unlock (sync.WaitGroup.Wait, sync.Cond.Wait, time.Sleep, channel operations outside a select with default); R5 the key under which a client is registered comes from a never-repeating source (an atomic add of a positive constant on a field that nothing else writes, a field only ever incremented, or a freshly allocated pointer/channel) — a key computed from the registry's current size is reused after a disconnect and replaces a connected client's entry. R6 the proxy's broadcast entry point hands every event to the hub (Send dominates every exit); R7 on the event-stream route the proxy writes or flushes nothing before the hub's handler runs (the hub registers the client before its first flush). NOT decided: delivery under all interleavings, liveness of slow readers.",
 		Assumptions: []string{"a send on a closed channel panics; a send in a select with a ready done arm cannot block forever", "net/http cancels r.Context() when ServeHTTP returns"},
 		Trusted:     []string{"go/types", "x/tools go/packages, go/cfg"},
 		Run:         runC19,
@@ -148,7 +148,8 @@ func enclosingSelect(body *ast.BlockStmt, target ast.Node) (*ast.SelectStmt, *as
 }
 
 func runC19(c *Ctx) {
-	c.load("./cmd/templ/generatecmd/sse")
+	c.load("./cmd/templ/generatecmd/sse", "./cmd/templ/generatecmd/proxy")
+	broadcastEntryForwardsEverything(c, "C19.R6", "C19.R7")
 	p := c.pkg("cmd/templ/generatecmd/sse")
 	info := p.TypesInfo
 	ri := findChanRegistry(p)
@@ -697,4 +698,156 @@ func otherWrites(p *packages.Package, fld *types.Var, except *ast.CallExpr) stri
 		})
 	}
 	return out
+}
+
+// broadcastEntryForwardsEverything: C19.R6/R7 — between the watcher and the SSE hub sits the proxy: R6 its broadcast
+// entry point hands EVERY event to the hub (the hub's Send dominates every exit; a throttle or de-duplication there
+// drops the reload that a tab which reconnected in between was waiting for); R7 on the event-stream route nothing is
+// written or flushed to the ResponseWriter before the hub's handler is called — the hub registers the client before
+// its first flush, so an earlier flush lets the browser see an open stream while it is not registered yet, and a
+// broadcast in that window misses it.
+func broadcastEntryForwardsEverything(c *Ctx, ruleSend, ruleServe string) {
+	p := c.pkg("cmd/templ/generatecmd/proxy")
+	if p == nil {
+		c.viol(ruleSend, "anchor-lost:generatecmd/proxy", "", "package cmd/templ/generatecmd/proxy not loaded")
+		return
+	}
+	info := p.TypesInfo
+	isHub := func(fn *types.Func, name string) bool {
+		return fn != nil && fn.Name() == name && fn.Pkg() != nil && strings.HasSuffix(fn.Pkg().Path(), "/generatecmd/sse")
+	}
+	nsend, nserve := 0, 0
+	for _, fd := range allFuncDecls(p) {
+		fc := newFnCFG(fd.Body, info)
+		var sends, serves []*ast.CallExpr
+		ast.Inspect(fd.Body, func(x ast.Node) bool {
+			if call, ok := x.(*ast.CallExpr); ok {
+				fn := calleeOf(info, call)
+				if isHub(fn, "Send") {
+					// the forwarding entry point: the hub's Send is given this function's own parameters
+					forwards := len(call.Args) > 0
+					for _, a := range call.Args {
+						id, ok := ast.Unparen(a).(*ast.Ident)
+						isParam := false
+						if ok {
+							for _, prm := range fd.Type.Params.List {
+								for _, nm := range prm.Names {
+									if info.Defs[nm] == info.ObjectOf(id) {
+										isParam = true
+									}
+								}
+							}
+						}
+						if !isParam {
+							forwards = false
+						}
+					}
+					if forwards {
+						sends = append(sends, call)
+					}
+				}
+				if isHub(fn, "ServeHTTP") {
+					serves = append(serves, call)
+				}
+			}
+			return true
+		})
+		if len(sends) > 0 {
+			nsend++
+			why := ""
+			var exits []ast.Node
+			ast.Inspect(fd.Body, func(x ast.Node) bool {
+				if r, ok := x.(*ast.ReturnStmt); ok {
+					exits = append(exits, r)
+				}
+				return true
+			})
+			if len(fd.Body.List) > 0 {
+				exits = append(exits, fd.Body.List[len(fd.Body.List)-1])
+			}
+			for _, ex := range exits {
+				dom := false
+				for _, s := range sends {
+					if fc.dominates(s, ex) || (ex.Pos() <= s.Pos() && s.End() <= ex.End()) {
+						dom = true
+					}
+				}
+				if !dom {
+					why = "the exit at " + c.pos(ex.Pos()) + " is reached without the hub's Send having been called"
+				}
+			}
+			c.check(why == "", ruleSend, funcKey(p, fd)+"|every-event-reaches-the-hub", c.pos(fd.Pos()), "the hub's Send dominates every exit",
+				fd.Name.Name+": "+why+": some broadcasts are dropped before they reach the connected browsers (a tab that reloaded after the first of two quick events and reconnected never gets the second, and keeps showing stale content)")
+		}
+		for _, sv := range serves {
+			nserve++
+			var wObj types.Object
+			if len(sv.Args) > 0 {
+				if id, ok := ast.Unparen(sv.Args[0]).(*ast.Ident); ok {
+					wObj = info.ObjectOf(id)
+				}
+			}
+			early := ""
+			ast.Inspect(fd.Body, func(x ast.Node) bool {
+				call, ok := x.(*ast.CallExpr)
+				if !ok || call == sv || wObj == nil {
+					return true
+				}
+				touches := false
+				if se, ok := call.Fun.(*ast.SelectorExpr); ok {
+					if id, ok := ast.Unparen(se.X).(*ast.Ident); ok && info.ObjectOf(id) == wObj && se.Sel.Name != "Header" {
+						touches = true
+					}
+					// w.(http.Flusher).Flush()
+					if ta, ok := ast.Unparen(se.X).(*ast.TypeAssertExpr); ok {
+						if id, ok := ast.Unparen(ta.X).(*ast.Ident); ok && info.ObjectOf(id) == wObj {
+							touches = true
+						}
+					}
+				}
+				for _, a := range call.Args {
+					if id, ok := ast.Unparen(a).(*ast.Ident); ok && info.ObjectOf(id) == wObj {
+						if fn := calleeOf(info, call); fn != nil && fn.Pkg() != nil && (fn.Pkg().Path() == "fmt" || fn.Pkg().Path() == "io") {
+							touches = true
+						}
+					}
+				}
+				// a flusher obtained by assertion earlier: f, ok := w.(http.Flusher); f.Flush()
+				if se, ok := call.Fun.(*ast.SelectorExpr); ok && se.Sel.Name == "Flush" {
+					touches = touches || flusherOf(info, fd, se.X, wObj)
+				}
+				if touches && fc.reachable(call, sv) {
+					early = types.ExprString(call.Fun) + " at " + c.pos(call.Pos())
+				}
+				return true
+			})
+			c.check(early == "", ruleServe, fmt.Sprintf("%s|nothing-written-before-hub-handler", funcKey(p, fd)), c.pos(sv.Pos()), "the ResponseWriter is untouched before the hub's handler runs",
+				fd.Name.Name+": "+early+" writes to (or flushes) the response before the SSE hub's handler is called: the browser sees an open event stream although the client is not registered yet, and a broadcast sent in that window never reaches it")
+		}
+	}
+	c.count("hub_send_callers", nsend)
+	c.count("hub_servehttp_callers", nserve)
+	c.floor(ruleSend, 1)
+	c.floor(ruleServe, 1)
+}
+
+func flusherOf(info *types.Info, fd *ast.FuncDecl, e ast.Expr, wObj types.Object) bool {
+	id, ok := ast.Unparen(e).(*ast.Ident)
+	if !ok {
+		return false
+	}
+	found := false
+	ast.Inspect(fd.Body, func(x ast.Node) bool {
+		if as, ok := x.(*ast.AssignStmt); ok && len(as.Rhs) == 1 {
+			if ta, ok := ast.Unparen(as.Rhs[0]).(*ast.TypeAssertExpr); ok {
+				if wid, ok := ast.Unparen(ta.X).(*ast.Ident); ok && info.ObjectOf(wid) == wObj {
+					if lid, ok := as.Lhs[0].(*ast.Ident); ok && info.ObjectOf(lid) == info.ObjectOf(id) {
+						found = true
+					}
+				}
+			}
+		}
+		return true
+	})
+	return found
 }
